@@ -160,16 +160,19 @@ Definition wf_kmsg_common (m : kmsg) : bool :=
   ((k_magic m =? 0) || (k_magic m =? 1)) && in_u8 (k_attr m) && i64 (k_ts m)
   && opt_bytes_ok (k_key m) && opt_bytes_ok (k_value m) && (len (enc_kmsg m) <=? MAX32).
 Definition wf_kmsg (m : kmsg) : bool := wf_kmsg_common m && (Z.land (k_attr m) 3 =? 0).
-(* a gzip wrapper: codec bits 1 *)
-Definition wf_kwrap (m : kmsg) : bool := wf_kmsg_common m && (Z.land (k_attr m) 3 =? 1).
+(* a compressed wrapper: codec bits [c] (1 gzip, 2 snappy) *)
+Definition wf_kwrap_c (c : Z) (m : kmsg) : bool := wf_kmsg_common m && (Z.land (k_attr m) 3 =? c).
+Definition wf_kwrap := wf_kwrap_c 1.
 
-Fixpoint wf_ktree (gz : list Z -> list Z) (t : ktree) : bool :=
+(* [gz] is the compression function of the encoder, [c] the codec number every wrapper of the tree announces *)
+Fixpoint wf_ktree_c (c : Z) (gz : list Z -> list Z) (t : ktree) : bool :=
   match t with
   | KLeaf off m => i64 off && wf_kmsg m
   | KWrap off magic attr ts key kids =>
-      i64 off && wf_kwrap (mk_kmsg magic attr ts key (Some (gz (flat_map (enc_ktree gz) kids))))
-      && forallb (wf_ktree gz) kids
+      i64 off && wf_kwrap_c c (mk_kmsg magic attr ts key (Some (gz (flat_map (enc_ktree gz) kids))))
+      && forallb (wf_ktree_c c gz) kids
   end.
+Definition wf_ktree := wf_ktree_c 1.          (* gzip, the codec available in every installation *)
 
 (* every tree of a forest well-formed and nested less than [depth] wrappers deep *)
 Definition forest_ok (gz : list Z -> list Z) (depth : nat) (ts : list ktree) : bool :=
